@@ -162,6 +162,33 @@ fn run_flow(ctx: &mut Ctx, r: &mut Rng) {
     cfg.untracked_eighths = 3;
     cfg.max_ops = 9;
     let mut p = gen_program(r, &cfg);
+    if r.chance(1, 10) {
+        // a hand-made pattern: an intermediate h that must keep its gradient (explicitly tracked()), a second handle c
+        // of it that is switched off, and one operation consuming both - the detached alias before or after h
+        let mut q = Program::default();
+        let n = r.range(1, 3);
+        let ints = |r: &mut Rng| -> Vec<f64> { (0..n).map(|_| r.int(-3, 3)).collect() };
+        let va = ints(r);
+        let a = q.leaf(&[n], &va, true);
+        let vb = ints(r);
+        let b = q.leaf(&[n], &vb, !r.chance(1, 3));
+        let h = q.op([OpKind::Mul, OpKind::Add, OpKind::CMul][r.below(3)].clone(), &[a, b]);
+        if let Node::Op { post, .. } = &mut q.nodes[h] {
+            *post = Some(true);
+        }
+        let c = q.op(OpKind::CloneH, &[h]);
+        let k = [OpKind::Mul, OpKind::Add, OpKind::Sub, OpKind::CMul, OpKind::CAdd][r.below(5)].clone();
+        let args = if r.chance(1, 2) { vec![c, h] } else { vec![h, c] };
+        let y = q.op(k, &args);
+        if let Node::Op { pre, .. } = &mut q.nodes[y] {
+            pre.push((c, false));
+        }
+        if r.chance(1, 2) {
+            q.op(OpKind::Add, &[y, h]);
+        }
+        ctx.count("alias_sibling_patterns", 1);
+        p = q;
+    }
     // the root is never explicitly untracked (that is outside "the array the pass is started on")
     let root = p.root();
     for i in [root, p.base(root)] {
